@@ -215,7 +215,7 @@ func c02ChainLoop(c *Ctx, r *R) {
 				// guards inside the loop: those evaluated in blocks dominated by the loop test
 				inLoop := false
 				for _, e := range eng.RelEdges(fn, token.LSS, eng.PAny(), hdrLen) {
-					if eng.EdgeDominates(e, g.Edge.From) || e.To() == g.Edge.From {
+					if eng.EdgeDominates(e, g.Edge.From) {
 						inLoop = true
 					}
 				}
@@ -284,7 +284,7 @@ func c02ChainLoop(c *Ctx, r *R) {
 		}
 		dom := false
 		for _, e := range same {
-			if eng.EdgeDominates(e, ret.Block()) || e.To() == ret.Block() {
+			if eng.EdgeDominates(e, ret.Block()) {
 				dom = true
 			}
 		}
@@ -387,7 +387,7 @@ func c02ChainLoop(c *Ctx, r *R) {
 	notPolicyRef := eng.RelEdges(fn, token.NEQ, eng.PMethod("GetRefName", eng.PParam("requestedEntry")), eng.PStr(refPolicy))
 	domBy := func(es []eng.Edge, b *ssa.BasicBlock) bool {
 		for _, e := range es {
-			if eng.EdgeDominates(e, b) || e.To() == b {
+			if eng.EdgeDominates(e, b) {
 				return true
 			}
 		}
